@@ -135,6 +135,22 @@ func dischargeFunc(sv *Solver, fr *FuncResult, par int) map[string]*oblStatus {
 		if o.Reach {
 			continue
 		}
+		if fr.Contract != nil {
+			n := o.Name()
+			if _, skip := fr.Contract.Unclaimed[n[strings.Index(n, "/")+1:]]; skip {
+				mu.Lock()
+				if stats[n] == nil {
+					stats[n] = &oblStatus{Name: n, Solver: map[string]int{}, Goal: o.Goal, Pos: o.Pos}
+				}
+				stats[n].Instances++
+				stats[n].Unknown++
+				if stats[n].FailInst == nil {
+					stats[n].FailInst, stats[n].FailRes = o, &SolveResult{Answer: "unclaimed", Solver: "none", Tried: []string{"unclaimed: not attempted"}}
+				}
+				mu.Unlock()
+				continue
+			}
+		}
 		wg.Add(1)
 		sem <- struct{}{}
 		go func() {
@@ -256,6 +272,11 @@ func cmdVC(args []string) {
 							for _, v := range st.FailInst.Vars {
 								if val, ok := st.FailRes.Model[v.Term]; ok {
 									fmt.Printf("      %s = %s\n", v.Name, val)
+								}
+							}
+							for _, v := range st.FailInst.Fields {
+								if val, ok := st.FailRes.Model[v.Term]; ok {
+									fmt.Printf("      %s = %s\n", v.Path, val)
 								}
 							}
 						}
